@@ -94,6 +94,7 @@ impl<'a> Acceptor<'a> {
   fn feed(&mut self, l: &L) {
     match l {
       L::RSet { r, val, .. } => { match val { Some(v) => { self.state.insert(*r, *v); } None => { self.state.remove(r); } } }
+      L::ExtChange { r, val } => { match val { Some(v) => { self.state.insert(*r, *v % 4); } None => { self.state.remove(r); } } }
       L::TEnter(t) => {
         if let Some(e) = self.shadow.last.get(t) { if e.complete { self.prev_requires.insert(*t, e.requires()); } }
       }
